@@ -34,3 +34,5 @@ def run(check):
     check.run_rule('C11.R7', lambda c: rule_annotations_paired_with_owner(c, 'C11.R7'))
     from ..rules_classes import rule_owner_capability_test
     check.run_rule('C11.R8', lambda c: rule_owner_capability_test(c, 'C11.R8'))
+    from ..rules_classes import rule_replace_slot_polarity
+    check.run_rule('C11.R1d', lambda c: rule_replace_slot_polarity(c, 'C11.R1'))
